@@ -194,7 +194,7 @@ class HeapMixin:
             e = str_to_z3(obj)
             n = z3.Length(e)
             k = z3_of_int(key)
-            if not ctx.branch(z3.And(k < n, k >= -n), f"idx@{fr.line}"):
+            if not fr.spec and not ctx.branch(z3.And(k < n, k >= -n), f"idx@{fr.line}"):
                 raise mk_exc(IndexError, "string index out of range", where=fr.where())
             idx = z3.If(k >= 0, k, n + k)
             kind = kind_of_strlike(obj)
@@ -241,7 +241,7 @@ class HeapMixin:
         ctx = self.ctx
         n = z3.Length(seq.e)
         k = z3_of_int(key)
-        if not ctx.branch(z3.And(k < n, k >= -n), f"idx@{fr.line}"):
+        if not fr.spec and not ctx.branch(z3.And(k < n, k >= -n), f"idx@{fr.line}"):
             raise mk_exc(IndexError, "list index out of range", where=fr.where())
         idx = z3.If(k >= 0, k, n + k)
         return self.seq_elem(seq, z3.simplify(idx))
